@@ -38,6 +38,10 @@ def _cases():
         ("content-length", [b"", b"1"], [b"0", b"9"], [b"", b"x", b" 1"]),
         ("quoted-string", [b'"', b'"\\'], [b"a", b"\\a", b" ", b"\\\\"], [b"", b"\x00", b"\\"]),
     ]
+    # accumulate-and-rescan: an unterminated chunk-size line / trailer delivered in many reads (the carry
+    # is concatenated and searched again on every read); a few large sizes, fed in READ_SIZE pieces
+    for pre in (b"5;", b"0\r\nX: "):
+        out.append(("chunked-reads", pre + b"a" * (1 << 21)))
     for site, prefixes, pumps, suffixes in sites:
         for pre in prefixes:
             for pump in pumps:
@@ -67,8 +71,17 @@ def _half(data):
     return None
 
 
+READ_SIZE = 4096
+
+
 def _run_site(site, data):
-    if site == "chunk-line":
+    if site == "chunked-reads":
+        from waitress.buffers import OverflowableBuffer
+        from waitress.receiver import ChunkedReceiver
+        r = ChunkedReceiver(OverflowableBuffer(1 << 20))
+        for i in range(0, len(data), READ_SIZE):
+            r.received(data[i:i + READ_SIZE])
+    elif site == "chunk-line":
         from waitress.buffers import OverflowableBuffer
         from waitress.receiver import ChunkedReceiver
         r = ChunkedReceiver(OverflowableBuffer(1 << 20))
@@ -114,13 +127,13 @@ def _cpu(site, data):
 def child(only=None):
     cases = _cases() if only is None else [only]
     for site, data in cases:
-        print(json.dumps({"start": [site, data.hex()]}), flush=True)
+        print(json.dumps({"start": [site, data.hex() if len(data) <= 65536 else "big:%d:%s" % (len(data), data[:16].hex())]}), flush=True)
         dt = _cpu(site, data)
         if dt > PER_INPUT_BUDGET:
             # confirm: the minimum of three more measurements must exceed the budget too
             dt = min([dt] + [_cpu(site, data) for _ in range(3)])
         if dt > PER_INPUT_BUDGET:
-            print(json.dumps({"slow": [site, data.hex(), round(dt, 3)]}), flush=True)
+            print(json.dumps({"slow": [site, data.hex() if len(data) <= 65536 else data[:64].hex() + "..x%d" % len(data), round(dt, 3)]}), flush=True)
         elif dt > GROWTH_MIN and len(data) >= SIZES[-1]:
             # below the absolute budget at this size, but does the time grow faster than linearly?
             # (a quadratic match of 0.3 s at 8 KiB is minutes at the default header limit)
@@ -129,7 +142,7 @@ def child(only=None):
                 d_full = min([dt] + [_cpu(site, data) for _ in range(2)])
                 d_half = max([_cpu(site, half) for _ in range(3)])
                 if d_full > GROWTH_MIN and d_full > GROWTH_RATIO * max(d_half, 1e-4):
-                    print(json.dumps({"slow": [site, data.hex(), round(d_full, 3)]}), flush=True)
+                    print(json.dumps({"slow": [site, data.hex() if len(data) <= 65536 else data[:64].hex() + "..x%d" % len(data), round(d_full, 3)]}), flush=True)
     print(json.dumps({"done": len(cases)}), flush=True)
 
 
